@@ -6,6 +6,7 @@ a run-private temp dir and cwd. One PRNG (from the seed) decides the workload, t
 two wrappers and clock advances (i.e. where a child's exit lands in the call sequence) and all faults.
 """
 
+import json
 import os
 import shutil
 import tempfile
@@ -378,6 +379,16 @@ def _expected_input_rows(seqs, sspec):
 
 
 class Sim:
+    real = False  # RealSim (conformance mode) sets this: real subprocess.Popen, gated fake executables
+
+    def settle(self):
+        """Real mode: children whose scripted exit instant has been reached are released and reaped-to-zombie."""
+        if not self.real:
+            return
+        due = [p for r in self.recs for p in r.procs if isinstance(p, RealProc) and not p.released and p.exit_at <= self.world.now]
+        for p in sorted(due, key=lambda p: p.exit_at):
+            p.release()
+
     def __init__(self, spec, keep_log):
         self.spec = spec
         self.cfg = spec["cfg"]
@@ -472,7 +483,7 @@ class Sim:
         if rec.kind == "stublocal":
             if [a for a in p.args[1:] if not a.startswith("--x-")] != rec.settings.get("arguments", []):
                 self.fail("launch:arguments", kind=rec.kind, argv=p.args)
-            if p.stdin is not rec.settings.get("stdin"):
+            if not self.real and p.stdin is not rec.settings.get("stdin"):
                 self.fail("launch:stdin", kind=rec.kind)
             return
         if rep.get("tool_error"):
@@ -587,6 +598,7 @@ class Sim:
         if name == "advance":
             before = [(r, r.exit_at is not None and r.state == RUNNING and self.world.now < r.exit_at) for r in self.recs]
             self.world.advance(op["dt"])
+            self.settle()
             for r, pending in before:
                 if pending and self.world.now >= r.exit_at:
                     self.res.stats["probe:exit-between-calls"] += 1
@@ -636,6 +648,8 @@ class Sim:
         try:
             if k == "stublocal":
                 rec.bin = ws["bin"]
+                if self.real:
+                    rec.bin = self.real_bin(rec)
                 st, val = call(make_stub_local, rec.bin)
             elif k == "stubpoll":
                 rec.bin = None
@@ -651,6 +665,10 @@ class Sim:
                 default_bin = {"clustalo": "clustalo", "muscle3": "muscle", "muscle5": "muscle", "mafft": "mafft"}[k]
                 rec.bin = ws["bin"] or default_bin
                 args = [seqs] + ([ws["bin"]] if ws["bin"] else [])
+                if self.real:
+                    rec.bin = self.real_bin(rec)
+                    args = [seqs, rec.bin]
+                    self.ctrl_for(rec)  # the version probe of the constructor reads the banner from it
                 kwargs = {}
                 if k != "muscle5" and matrix is not None:
                     kwargs["matrix"] = matrix
@@ -674,7 +692,7 @@ class Sim:
                     expected_exc = (TypeError,)
                 rec.matrix = matrix if k in ("muscle3", "mafft") else None
                 st, val = call(cls, *args, **kwargs)
-                if v:
+                if v and not self.real:
                     if getattr(self.world, "version_args", None) != [rec.bin, "-version"]:
                         self.fail("create:version-probe-args", kind=k, got=getattr(self.world, "version_args", None))
         finally:
@@ -929,7 +947,16 @@ class Sim:
             expect_fail = {"enoent": FileNotFoundError, "eacces": PermissionError, "eagain": OSError}[script["launch"]]
             if rec.exec_dir_path is not None:
                 self.res.stats["probe:launch-failed-with-execdir"] += 1
+        ctrl = self.ctrl_for(rec) if self.real else None
         st, val = call(fn)
+        if self.real and st == "ok":
+            popen = rec.app.get_process()
+            rec.procs.append(RealProc(popen, rec, self.world, ctrl))
+            self.res.stats["sim:popen"] += 1
+            if script.get("dur") is None:
+                self.res.stats["fault:tool-hangs"] += 1
+        elif self.real and expect_fail is not None and script["launch"] != "ok":
+            self.res.stats[f"fault:launch-{script['launch']}"] += 1
         if expect_fail is not None:
             if st == "ok":
                 self.fail("start:launch-failure-swallowed", kind=rec.kind, launch=script["launch"])
@@ -955,6 +982,12 @@ class Sim:
     def x_cancel(self, rec, op, fn, args, kwargs):
         exited = rec.exit_at is not None and self.world.now >= rec.exit_at
         st, val = call(fn)
+        if self.real:
+            for p in rec.procs:
+                if not p.released:
+                    self.res.stats["sim:children-killed"] += 1
+                if not p.wait_dead():
+                    self.fail("resource:child-left-running", op="cancel", kind=rec.kind, how="cancel (real process still alive after 10 s)")
         if st == "exc":
             rec.state = CANCELLED
             rec.ended = True
@@ -977,7 +1010,7 @@ class Sim:
         st, val = call(fn)
         if st == "exc":
             self.fail("getter:raised", kind=rec.kind, op="get_process", got=exc_name(val))
-        if val is not rec.procs[-1]:
+        if val is not (rec.procs[-1].popen if self.real else rec.procs[-1]):
             self.fail("getter:wrong-value", kind=rec.kind, op="get_process")
         return "ok"
 
@@ -1046,7 +1079,22 @@ class Sim:
         hang = rec.exit_at is None or rec.exit_at == sw.INF
         poll = rec.kind == "stubpoll"
         jumped_before = world.jumped
-        st, val = call(fn, *args, **kwargs)
+        if self.real:
+            if hang and to is None:
+                raise InvalidSpec("join without timeout on a tool that never exits")
+            if not hang and (to is None or exited or rec.exit_at - now0 <= to):
+                # the model says the child exits within the wait: let it exit first, then join returns at once
+                world.advance_to(max(now0, rec.exit_at))
+                self.settle()
+                st, val = call(fn, *args, **kwargs)
+            else:
+                # the child stays gated: a short *real* timeout stands for `to` virtual seconds
+                st, val = call(rec.app.join, timeout=0.05)
+                world.advance(to)
+                for p in rec.procs:
+                    p.wait_dead()
+        else:
+            st, val = call(fn, *args, **kwargs)
         elapsed = world.now - now0
         jump = world.jumped
         if jump and poll:
@@ -1560,8 +1608,7 @@ def extra_phase(tier, seed, total, workers, scratch):
     length = ENUM_LEN.get(tier, 3)
     n = enum_size(length)
     mod = _EnumModule(length)
-    global ENUM_MODULE
-    ENUM_MODULE = mod
+    PHASE_MODULES["enum"] = mod
     sub = os.path.join(scratch, "enum")
     os.makedirs(sub, exist_ok=True)
     saved = core.DIGEST_SAMPLE, core.SAMPLE_INDICES
@@ -1572,7 +1619,225 @@ def extra_phase(tier, seed, total, workers, scratch):
         core.DIGEST_SAMPLE, core.SAMPLE_INDICES = saved
     for idx, v in agg.violations:
         v["phase"] = "enum"
-    before = total.runs
     total.merge(agg)
-    return {"what": f"every call sequence of length <= {length} over {ENUM_ALPHABET} x fault kinds {ENUM_FAULTS} x wrapper kinds {KINDS}",
-            "runs": agg.runs, "expected_runs": n, "exhaustive_over_this_family": agg.runs == n and not truncated, "violations": len(agg.violations)}
+    info = {"systematic_prefix": {
+        "what": f"every call sequence of length <= {length} over {ENUM_ALPHABET} x fault kinds {ENUM_FAULTS} x wrapper kinds {KINDS}",
+        "runs": agg.runs, "expected_runs": n, "exhaustive_over_this_family": agg.runs == n and not truncated, "violations": len(agg.violations)}}
+    # ---- conformance: sampled histories against REAL child processes (gated fake executables) ----
+    nreal = REAL_RUNS.get(tier, REAL_RUNS["quick"])
+    sub2 = os.path.join(scratch, "real")
+    os.makedirs(sub2, exist_ok=True)
+    core.DIGEST_SAMPLE, core.SAMPLE_INDICES = 0, ()
+    try:
+        ragg, rtrunc = core.run_many(REAL_MODULE, seed, nreal, workers, sub2)
+    finally:
+        core.DIGEST_SAMPLE, core.SAMPLE_INDICES = saved
+    for idx, v in ragg.violations:
+        v["phase"] = "real"
+    real_stats = {k: v for k, v in ragg.stats.items() if k.startswith(("fault:", "sim:"))}
+    # keep the real-process counters apart from the simulated ones
+    ragg.stats = type(ragg.stats)({("real-process:" + k if not k.startswith("op:") else k): v for k, v in ragg.stats.items()})
+    total.merge(ragg)
+    info["real_process_conformance"] = {
+        "what": "the same generator, model and oracles, but subprocess.Popen is real and runs fixtures/bin/faketool, a gated executable that "
+                "blocks on a FIFO until the scheduler releases it; the scheduler waits with waitid(WNOWAIT) until the child is a zombie "
+                "before biotite may observe anything (real process layer, stub tool)",
+        "runs": ragg.runs, "violations": len(ragg.violations), "truncated": rtrunc, "counters": dict(sorted(real_stats.items()))}
+    return info
+
+
+PHASE_MODULES = {"enum": ENUM_MODULE}
+
+
+# ================================================================================================
+# real-process conformance mode: the same histories, the same model and oracles, but the process layer is
+# the real subprocess.Popen running gated fake executables (fixtures/bin/faketool)
+# ================================================================================================
+
+FAKETOOL = os.path.join(os.path.dirname(os.path.dirname(os.path.dirname(os.path.abspath(__file__)))), "fixtures", "bin", "faketool")
+
+
+def proc_state(pid):
+    try:
+        with open(f"/proc/{pid}/stat") as f:
+            return f.read().rsplit(")", 1)[1].split()[0]
+    except OSError:
+        return None
+
+
+class RealProc:
+    """Observation surface of SimPopen on top of a real child process."""
+
+    def __init__(self, popen, rec, world, ctrl):
+        self.popen = popen
+        self.args = list(popen.args)
+        self.pid = popen.pid
+        self.rec = rec
+        self.world = world
+        self.ctrl = ctrl
+        dur = rec.script.get("dur")
+        self.exit_at = sw.INF if dur is None else world.now + dur
+        self.released = False
+        self.tool_report = None
+        self._code = self._out = self._err = None
+        self.stdin = None
+
+    def alive(self):
+        return proc_state(self.pid) not in (None, "Z", "X")
+
+    def wait_dead(self, limit=10.0):
+        import time
+
+        t0 = time.monotonic()
+        while self.alive():
+            if time.monotonic() - t0 > limit:
+                return False
+            time.sleep(0.002)
+        return True
+
+    def release(self):
+        """Let the gated child run to its end and wait until it is a zombie, so that everything biotite can
+        observe afterwards happens at a synchronisation point."""
+        import errno
+        import time
+
+        if self.released or not self.alive():
+            return
+        self.released = True
+        t0 = time.monotonic()
+        while True:
+            try:
+                fd = os.open(self.ctrl["fifo"], os.O_WRONLY | os.O_NONBLOCK)
+                break
+            except OSError as e:
+                if e.errno != errno.ENXIO or time.monotonic() - t0 > 20:
+                    raise
+                time.sleep(0.002)
+        os.write(fd, b"x")
+        os.close(fd)
+        os.waitid(os.P_PID, self.pid, os.WEXITED | os.WNOWAIT)
+        with open(self.ctrl["report"]) as f:
+            rep = json.load(f)
+        if "matrix_in" in rep:
+            cols, rows = rep["matrix_in"]
+            rep["matrix_in"] = (cols, {(r, c): v for r, c, v in rows})
+        for k, v in rep.get("faults", {}).items():
+            self.world.stats[k] += v
+        self.tool_report = rep
+        self._code, self._out, self._err = rep["code"], rep["stdout"], rep["stderr"]
+        self.world.stats["sim:child-exits"] += 1
+
+
+class RealSim(Sim):
+    real = True
+
+    def __init__(self, spec, keep_log):
+        super().__init__(spec, keep_log)
+        self.ctrl_n = 0
+
+    def ctrl_for(self, rec):
+        self.ctrl_n += 1
+        base = os.path.join(self.root, f"ctrl{self.ctrl_n}")
+        ctrl = {"kind": rec.kind, "script": rec.script, "fifo": base + ".fifo", "report": base + ".report",
+                "banner": (rec.spec.get("version") or {}).get("banner", ""), "argv0": rec.bin}
+        os.mkfifo(ctrl["fifo"])
+        with open(base + ".json", "w") as f:
+            json.dump(ctrl, f)
+        os.environ["VERIF_TOOL_CTRL"] = base + ".json"
+        return ctrl
+
+    def real_bin(self, rec):
+        launch = rec.script.get("launch", "ok")
+        if launch == "enoent":
+            return os.path.join(self.root, "no-such-binary")
+        if launch == "eacces":
+            p = os.path.join(self.root, "not-executable")
+            with open(p, "w") as f:
+                f.write("#!/bin/sh\n")
+            os.chmod(p, 0o644)
+            return p
+        return FAKETOOL
+
+
+def execute_real(spec, keep_log=0):
+    """Entry used by the conformance phase; specs come from the same generator, filtered to what real
+    processes can express (no fork failure injection, no stubpoll wrapper)."""
+    import biotite.application.application as appmod
+
+    sim = RealSim(spec, keep_log)
+    sim.open_files = []
+    res = sim.res
+    saved = (appmod.time, tempfile.tempdir, tempfile._name_sequence, os.getcwd(), os.environ.get("VERIF_TOOL_CTRL"))
+    try:
+        appmod.time = sw.VClock(sim.world)
+        tempfile.tempdir = sim.tmp
+        tempfile._name_sequence = sw.DetNames(sim.cfg.get("name_seed", 0))
+        try:
+            sim.run()
+        except Violation as v:
+            res.violation = {"sig": v.sig, "detail": v.detail, "step": v.step}
+            sim.log.add({"violation": v.sig, "step": v.step})
+        finally:
+            # no real child survives a run
+            for rec in sim.recs:
+                for p in rec.procs:
+                    if isinstance(p, RealProc):
+                        try:
+                            p.popen.kill()
+                        except Exception:  # noqa: BLE001
+                            pass
+                        try:
+                            p.popen.communicate(timeout=10)
+                        except Exception:  # noqa: BLE001
+                            pass
+            sim.close()
+    finally:
+        appmod.time, tempfile.tempdir, tempfile._name_sequence, cwd, ctrl = saved
+        if ctrl is None:
+            os.environ.pop("VERIF_TOOL_CTRL", None)
+        else:
+            os.environ["VERIF_TOOL_CTRL"] = ctrl
+        try:
+            os.chdir(cwd)
+        except OSError:
+            pass
+        shutil.rmtree(sim.root, ignore_errors=True)
+    res.sim_time = sim.world.now - sw.EPOCH
+    res.nontrivial = res.n_ops >= 3 and sim.launched_any
+    res.digest = sim.log.digest()
+    res.log = sim.log.tail if keep_log else None
+    return res
+
+
+def real_expressible(spec):
+    for w in spec["cfg"]["wrappers"]:
+        if w["kind"] == "stubpoll" or w["script"].get("launch") == "eagain":
+            return False
+        if (w.get("version") or {}).get("kind") == "enoent":
+            return False
+        if w["kind"] in ("muscle3", "muscle5") and w["script"].get("launch", "ok") != "ok":
+            return False  # a really missing binary already fails the constructor's version probe
+    return not any(o.get("op") == "align" for o in spec["ops"])
+
+
+class _RealModule:
+    PROP = PROP
+    SEED_NAMESPACE = "C20-real"
+    STALL_SECONDS = 300
+
+    def generate_indexed(self, index, rng):
+        # rejection sampling inside one run's PRNG keeps the spec a pure function of the index
+        for _ in range(50):
+            spec = generate(rng)
+            if real_expressible(spec):
+                return spec
+        return {"cfg": {"wrappers": [], "jumps": [], "name_seed": 0}, "ops": []}
+
+    @staticmethod
+    def execute(spec, keep_log=0):
+        return execute_real(spec, keep_log=keep_log)
+
+
+REAL_MODULE = _RealModule()
+REAL_RUNS = {"quick": 400, "thorough": 20000}
+PHASE_MODULES["real"] = REAL_MODULE
